@@ -495,6 +495,8 @@ def make_app(programs, state):
                         if ei else start_response(second["status"], [(n, v) for n, v in second.get("headers", [])])
                 except BaseException as e:
                     state.sr_errors.append(type(e).__name__)
+                    if second.get("swallow") and isinstance(e, Exception):
+                        return      # an application (or middleware) that catches what start_response re-raised and goes on
                     raise
 
         if second and second.get("when") == "before_write":
